@@ -458,11 +458,18 @@ def c13(tier, seed):
         b = json.loads(report.dumps(pair[1]))
         b["cells"][pair[2]] = "000000000000"
         _must_reject(run, "Trace_ClientLoops", "Trace_ClientLoops.cfg", [pair[0], b], "cell_functional", "one cell token changed")
-        multi = next((x for x in slim if len(x["events"]) > 6), None)
+        # (the order of the recorded calls is mechanism: a deviation is advisory drift, not a violation - see the trace spec)
+        multi = next((x for x in slim if any(len(cols) > 3 for cols in x["tables"].values())), None)
         if multi is not None:
             b = json.loads(report.dumps(multi))
-            b["events"][0], b["events"][1] = b["events"][1], b["events"][0]
-            _must_reject(run, "Trace_ClientLoops", "Trace_ClientLoops.cfg", [b], "loop_", "two recorded calls swapped")
+            lvl = next(l for l, cols in b["tables"].items() if len(cols) > 3)
+            cols = b["tables"][lvl]
+            k0 = next((k for k, c in enumerate(cols) if isinstance(c, dict) and c.get("s") == ""), 0)
+            if isinstance(cols[k0], dict):
+                cols[k0] = dict(cols[k0], s="_x")
+            else:
+                cols[k0] = str(cols[k0]) + "_x"
+            _must_reject(run, "Trace_ClientLoops", "Trace_ClientLoops.cfg", [b], "stable_keys", "a key column suffixed")
     big = max(recs, key=lambda r: len(r["cells"]))
     run.sample({"request": big["req"], "calls": len(big["events"]), "cells": len(big["cells"]), "seconds": big["wall"]})
     run.sample({"calls_head": recs[0]["events"][:6], "request": recs[0]["req"]})
